@@ -92,7 +92,11 @@ func H_C11_flat() {
 	}
 	var rs []VectorResult
 	var e1, e2 error
-	switch vChoose("pair", 5) {
+	switch vChoose("pair", 6) {
+	case 5: // Add || "find similar" search (WithNode: the stored vector is looked up under the lock first)
+		vPar(2, func() { e1 = add(9, 7) }, func() { rs, e2 = idx.NewSearch().WithNode(5).WithK(10).WithNProbes(0).Execute() })
+		vAssert(e1 == nil && e2 == nil, "no-error-from-interleaving")
+		vValidVec(rs, []uint32{5, 3}, []uint32{9}, "add-findsimilar")
 	case 0: // Add || search
 		vPar(2, func() { e1 = add(9, 7) }, func() { rs, e2 = search() })
 		vAssert(e1 == nil && e2 == nil, "no-error-from-interleaving")
@@ -168,7 +172,13 @@ func H_C11_text() {
 	ix.Add(9, "fox")
 	var r1, r2 []TextResult
 	var e1, e2 error
-	switch vChoose("pair", 3) {
+	switch vChoose("pair", 4) {
+	case 3: // two multi-query searches with id filters (one pooled filter per search, used by every query of it)
+		vPar(2, func() { r1, e1 = ix.NewSearch().WithQuery("fox", "tick").WithK(10).WithDocumentIDs(5, 3).Execute() },
+			func() { r2, e2 = ix.NewSearch().WithQuery("dog", "fox").WithK(10).WithDocumentIDs(3, 9).Execute() })
+		vAssert(e1 == nil && e2 == nil, "no-error-from-interleaving")
+		vAssert(len(r1) == 1 && r1[0].Id == 5, "search-1-exact")
+		vAssert(len(r2) == 2 && (r2[0].Id == 3 || r2[0].Id == 9) && (r2[1].Id == 3 || r2[1].Id == 9) && r2[0].Id != r2[1].Id, "search-2-exact")
 	case 0:
 		vPar(2, func() { e1 = ix.Add(2, "fox emu") }, func() { r1, e2 = ix.NewSearch().WithQuery("fox").WithK(1).Execute() })
 		vAssert(e1 == nil && e2 == nil && len(r1) == 1, "no-error-from-interleaving")
@@ -263,7 +273,13 @@ func H_C11_store_close() {
 	vAssert(err == nil, "open-ok")
 	vAssert(s.AddWithID(11, []float32{1}, "", nil) == nil, "add-ok")
 	var e1, e2 error
-	switch vChoose("op", 3) {
+	switch vChoose("op", 4) {
+	case 3: // Close while a compaction is due / in flight (two segments, threshold 2)
+		s.config.CompactionThreshold = 2
+		vAssert(s.Flush() == nil, "flush-ok")
+		vAssert(s.AddWithID(12, []float32{5}, "", nil) == nil, "add-ok")
+		vAssert(s.Flush() == nil, "flush-ok")
+		vPar(1, func() { e1 = s.Close() }, func() { s.TriggerCompaction() })
 	case 0:
 		vPar(1, func() { e1 = s.Close() }, func() { e2 = s.AddWithID(12, []float32{5}, "", nil) })
 	case 1:
